@@ -507,6 +507,18 @@ func (c *Compiler) refChecker(
 	}
 }
 
+// The augment of a uses names a descendant of the nodes the uses brings
+// in: the parser accepts either form of a schema node identifier for an
+// augment, the absolute one (the counterpart of the check expandModule
+// makes for a module's own augments) is an error here.
+func (c *Compiler) assertDescendantAugment(a parse.Node) {
+	if _, ok := a.Argument().(*parse.DescendantSchemaArg); !ok {
+		c.error(a,
+			fmt.Errorf("invalid argument %s expected descendant schema id",
+				a.Argument().String()))
+	}
+}
+
 func (c *Compiler) applyUsesToNode(mod, nod, use parse.Node, parentStatus schema.Status) error {
 	gname := use.ArgIdRef()
 
@@ -625,10 +637,12 @@ func (c *Compiler) applyUsesToNode(mod, nod, use parse.Node, parentStatus schema
 	}
 	for _, a := range use.ChildrenByType(parse.NodeAugment) {
 
+		c.assertDescendantAugment(a)
 		applyToPath := a.ArgDescendantSchema()
 		c.applyAugment(a, refinedNodes, applyToPath, status)
 	}
 	for _, a := range use.ChildrenByType(parse.NodeOpdAugment) {
+		c.assertDescendantAugment(a)
 		applyToPath := a.ArgDescendantSchema()
 		c.applyAugment(a, refinedNodes, applyToPath, status)
 	}
